@@ -87,10 +87,14 @@ harness(void)
 	g_no_error = 1;
 #if !V_INFLIGHT
 	{
-		IN(bool, in_defined);
+		IN(bool, in_defined); IN(int, in_kind);
+		__CPROVER_assume(in_kind == TIDENT || in_kind == TNUMBER || in_kind == TNEWLINE || in_kind == TINT);
 		g_slot = in_defined ? m : (void *)0;
-		tok.kind = TIDENT; tok.lit = name;
+		tok.kind = in_kind; tok.lit = in_kind == TNEWLINE || in_kind == TINT ? (char *)0 : name;
+		g_no_error = in_kind == TIDENT;
 		undef();
+		__CPROVER_assert(in_kind == TIDENT, "#undef must be followed by an identifier (6.10.3.5p2 syntax); anything else is diagnosed");
+		__CPROVER_assume(in_kind == TIDENT);
 		__CPROVER_assert(g_nput == 1 && g_keystr == name, "the table is consulted for the spelling after #undef");
 		__CPROVER_assert(g_slot == 0, "6.10.3.5p2: the identifier is no longer defined as a macro name (and an undefined one stays undefined)");
 		__CPROVER_assert(g_nscan == 1 && tok.kind == TNEWLINE, "the token after the name becomes current (directive() then requires the new-line)");
@@ -105,6 +109,7 @@ harness(void)
 	expandfunc(m);
 	__CPROVER_assert(g_slot == 0, "the name is undefined from the directive on");
 	__CPROVER_assert(s_pos == 2 && m->arg == argbuf && m->arg[0].ntoken == 1 && m->arg[0].token[0].loc.col == 0, "the invocation in progress completes with its argument");
+	__CPROVER_assert(m->token[0].kind == TIDENT && m->param[0].flags == PARAMTOK, "... and its replacement list and parameter table, which expand() pushes next, are still there");
 #ifdef VERIF_CANARY
 	__CPROVER_assert(s_pos != 2, "CANARY");
 #endif
